@@ -2313,7 +2313,15 @@ class Evaluator:
     def eval_index(self, sl, st, base) -> Val:
         if isinstance(sl, ast.Slice):
             return self.eval_Slice(sl, st)
-        return self.eval(sl, st)
+        v = self.eval(sl, st)
+        if self.elementwise:
+            # indexing with the positions where a boolean mask holds (flatnonzero / where(...)[0] / nonzero(...)[0]) selects what the mask itself
+            # selects, in the same order
+            t = arr_identity(v) if isinstance(v, Num) else v
+            if isinstance(t, Term) and t.head == 'nz' and len(t.args) == 1 and isinstance(t.args[0], Term) and t.args[0].head == 'mask' \
+                    and getattr(t.args[0], 'mask', None) is None:
+                return t.args[0]
+        return v
 
     def subscript(self, base: Val, sl, st, node) -> Val:
         return self.subscript_val(base, None, st, node, sl)
